@@ -97,24 +97,34 @@ def strip_inf(state, f):
     return (op,) + tuple(strip_inf(state, g) for g in f[1:])
 
 
-def context_formulas(state, tr, extra=()):
-    fs = [tr.formula(strip_inf(state, h)) for h in state.hyps]
-    for v, rep in state.pc.rules.items():
-        if state.pc.kinds[v] == "inf":
-            continue
-        zv = tr.var(v)
-        fs.append(zv * zv == tr.poly(rep))
+def _is_definition(state, h):
+    """Hypotheses that define an atom by a polynomial equation (r^2 = u, c^2+s^2 = 1, solver equations ...)."""
+    return h[0] == "eq" and h[1].n.degree() >= 2
+
+
+def context_formulas(state, tr, extra=(), light=False):
+    """light: leave out the polynomial definitions of atoms (rules and degree >= 2 equations).  Proving a goal from
+    fewer hypotheses is sound; it keeps the query (near-)linear when the goal only needs the atoms' signs."""
+    if light:
+        fs = [tr.formula(strip_inf(state, h)) for h in state.hyps if not _is_definition(state, h)]
+    else:
+        fs = [tr.formula(strip_inf(state, h)) for h in state.hyps]
+        for v, rep in state.pc.rules.items():
+            if state.pc.kinds[v] == "inf":
+                continue
+            zv = tr.var(v)
+            fs.append(zv * zv == tr.poly(rep))
     fs.extend(tr.formula(strip_inf(state, g)) for g in state.path)
     fs.extend(tr.formula(strip_inf(state, g)) for g in extra)
     return fs
 
 
-def check_sat(state, extra, timeout_ms=2000):
+def check_sat(state, extra, timeout_ms=2000, light=False):
     """sat / unsat / unknown for  hyps & rules & path & extra."""
     tr = Translator(state)
     s = z3.Solver()
     s.set("timeout", timeout_ms)
-    for f in context_formulas(state, tr, extra):
+    for f in context_formulas(state, tr, extra, light):
         s.add(f)
     t = time.time()
     r = s.check()
@@ -135,10 +145,17 @@ def decider(state, formula, timeout_ms=2000):
         return [triv]
     feas = []
     for val in (True, False):
-        r, _ = check_sat(state, [formula if val else ("not", formula)], timeout_ms)
+        f = [formula if val else ("not", formula)]
+        r, _ = check_sat(state, f, timeout_ms, light=True)
+        if r != "unsat" and _has_definitions(state) and not getattr(state, "light_only", False):
+            r, _ = check_sat(state, f, min(timeout_ms, 1000), light=False)
         if r != "unsat":
             feas.append(val)
     return feas
+
+
+def _has_definitions(state):
+    return bool(state.pc.rules) or any(_is_definition(state, h) for h in state.hyps)
 
 
 def prove(state, goal, timeout_ms=20000, use_cvc5=True):
@@ -150,6 +167,10 @@ def prove(state, goal, timeout_ms=20000, use_cvc5=True):
     triv = S.trivial_truth(goal)
     if triv is True:
         return "proved", None, "syntactic"
+    if _has_definitions(state):
+        r, model = check_sat(state, [("not", goal)], min(timeout_ms, 5000), light=True)
+        if r == "unsat":
+            return "proved", None, "z3"
     r, model = check_sat(state, [("not", goal)], timeout_ms)
     if r == "unsat":
         return "proved", None, "z3"
